@@ -930,18 +930,41 @@ func c09names(c *an.Ctx) {
 			if !isSuccessReturn(r) {
 				continue
 			}
-			ch := an.Resolve(r.Results[2])
-			good := false
-			if ex, ok := an.Strip(ch).(*ssa.Extract); ok {
-				if call, ok := ex.Tuple.(*ssa.Call); ok && an.IsCallTo(call, gtca) && ex.Index == 1 {
-					succ, _ := an.ErrEdges(call)
-					q := &an.PathQ{Fn: getExistingTopicQ, StartEntry: true, Sink: func(in ssa.Instruction, _ *an.PathState) bool { return in == ssa.Instruction(r) },
-						CutEdge: func(e an.Edge, _ *an.PathState) bool { return an.EdgeIn(e, succ) }}
-					if _, f := q.Find(); !f {
-						good = true
-					}
-				}
+			// on every path that ends in this return as a success, the channel name is the validated result of a
+			// GetTopicChannelArgs call whose success edge the path took
+			var succ []an.Edge
+			for _, gc := range an.CallsTo(getExistingTopicQ, gtca) {
+				se, _ := an.ErrEdges(gc.Value())
+				succ = append(succ, se...)
 			}
+			validated := func(v ssa.Value) bool {
+				ex, ok := an.Strip(an.Resolve(v)).(*ssa.Extract)
+				if !ok || ex.Index != 1 {
+					return false
+				}
+				call, ok := ex.Tuple.(*ssa.Call)
+				return ok && an.IsCallTo(call, gtca)
+			}
+			rr := r
+			q1 := &an.PathQ{Fn: getExistingTopicQ, StartEntry: true, FullOnly: true, AllAlias: true,
+				Sink: func(in ssa.Instruction, ps *an.PathState) bool {
+					if in != ssa.Instruction(rr) || !sinkSuccessReturn(in, ps) {
+						return false
+					}
+					v := rr.Results[2]
+					if ps != nil {
+						v = ps.Selected(v)
+					}
+					return !validated(v)
+				}}
+			q2 := &an.PathQ{Fn: getExistingTopicQ, StartEntry: true, FullOnly: true,
+				Sink: func(in ssa.Instruction, ps *an.PathState) bool {
+					return in == ssa.Instruction(rr) && sinkSuccessReturn(in, ps)
+				},
+				CutEdge: func(e an.Edge, _ *an.PathState) bool { return an.EdgeIn(e, succ) }}
+			_, f1 := q1.Find()
+			_, f2 := q2.Find()
+			good := len(succ) > 0 && !f1 && !f2
 			c.Check(good, getExistingTopicQ, "getExistingTopicFromQuery returns a validated channel name", r.Pos(), "", "the channel name returned on success is not GetTopicChannelArgs' validated result")
 		}
 	}
